@@ -175,6 +175,25 @@ impl C12 {
         for k in 0..2 {
             docs.push(pool.generated(&Family::SharedHeader, k));
         }
+        for k in 0..2 {
+            docs.push(pool.generated(&Family::JbigCycle, k));
+        }
+        // documents with an update history of their own (several sections, freed and reused numbers,
+        // cross-reference streams that share an object number, stale object-stream members)
+        for k in 0..(if tier == Tier::Quick { 8 } else { 48 }) {
+            let mut rng = Rng::new(run_seed(verif_seed, "C12/history-doc", k));
+            let h = crate::c02::gen_history(&mut rng, Tier::Quick);
+            let spec = crate::c02::compile(&h);
+            let w = crate::docgen::write_doc(&spec);
+            if crate::docgen::self_check(&spec, &w).is_err() {
+                eprintln!("HARNESS-ERROR: writer self-check failed (C12 history document {})", k);
+                std::process::exit(2);
+            }
+            let d = Doc::from_bytes(&format!("hist{}", k), "generated", w.bytes, b"");
+            if d.inv.loadable {
+                docs.push(Arc::new(d));
+            }
+        }
         for k in 0..pool.corpus_len() {
             if let Some(d) = pool.corpus(k) {
                 if d.inv.loadable {
@@ -310,7 +329,12 @@ impl C12 {
         let mut before: Vec<String> = case.ops[..k].iter().map(|o| o.kind()).collect();
         before.sort();
         before.dedup();
-        if alone.ok && got.ok && (case.tolerant || case.switch_options.iter().any(|&b| b)) && self.alone.doc_has_cycle(&case.doc) {
+        // (the cut also shows through error texts that render the object, e.g. "unimplemented
+        // JBIG2Decode(JBIG2DecodeParams { globals: None })" against "... globals: Some(..)": two errors of
+        // the same variant whose texts differ)
+        let variant = |a: &Answer| a.text.split(':').next().unwrap_or("").to_string();
+        let same_class = (alone.ok && got.ok) || (!alone.ok && !got.ok && variant(alone) == variant(got));
+        if same_class && (case.tolerant || case.switch_options.iter().any(|&b| b)) && self.alone.doc_has_cycle(&case.doc) {
             // one root cause, many shapes (which call, which calls before, with or without eviction)
             return "tolerant mode, document with a typed reference cycle: where the cycle is cut depends on the calls made before (the cut object is cached)".to_string();
         }
